@@ -72,20 +72,27 @@ def sortedStrict : List (Key × Nat) → Bool
   | [_] => true
   | a :: b :: r => a.1 < b.1 && sortedStrict (b :: r)
 
-def judgeOp (ws : List ORec) (nkeys : Nat) (o : ORec) : Option String :=
+/-- `pfx` names the component (`lsm`, `btree`, `kv`) in the signature -/
+def judgeOpP (pfx : String) (ws : List ORec) (nkeys : Nat) (o : ORec) : Option String :=
   match o.kind, o.e with
-  | .get k, some e => (judgeRead ws k o.b e o.got).map fun c => s!"lsm/get/{c}"
+  | .get k, some e => (judgeRead ws k o.b e o.got).map fun c => s!"{pfx}/get/{c}"
   | .scan lo hi, some e =>
-    if !sortedStrict o.rows then some "lsm/scan/unsorted-or-duplicate"
-    else if o.rows.any fun r => !(lo ≤ r.1 && r.1 < hi) then some "lsm/scan/out-of-range"
+    if !sortedStrict o.rows then some s!"{pfx}/scan/unsorted-or-duplicate"
+    else if o.rows.any fun r => !(lo ≤ r.1 && r.1 < hi) then some s!"{pfx}/scan/out-of-range"
     else (List.range nkeys).findSome? fun k =>
-      if lo ≤ k && k < hi then (judgeRead ws k o.b e (o.rows.lookup k)).map fun c => s!"lsm/scan/{c}"
+      if lo ≤ k && k < hi then (judgeRead ws k o.b e (o.rows.lookup k)).map fun c => s!"{pfx}/scan/{c}"
       else none
   | _, _ => none
 
+def writesOf (ops : List ORec) : List ORec :=
+  ops.filter fun o => match o.kind with | .put _ _ => true | .del _ => true | _ => false
+
+def judgeOpsP (pfx : String) (ops : List ORec) (nkeys : Nat) : Option String :=
+  ops.findSome? fun o => (judgeOpP pfx (writesOf ops) nkeys o).map fun sig => s!"{sig} op {o.id}"
+
+def judgeOp (ws : List ORec) (nkeys : Nat) (o : ORec) : Option String := judgeOpP "lsm" ws nkeys o
+
 /-- the whole observation satisfies the property iff this is `none` -/
-def judgeOps (ops : List ORec) (nkeys : Nat) : Option String :=
-  let ws := ops.filter fun o => match o.kind with | .put _ _ => true | .del _ => true | _ => false
-  ops.findSome? fun o => (judgeOp ws nkeys o).map fun sig => s!"{sig} op {o.id}"
+def judgeOps (ops : List ORec) (nkeys : Nat) : Option String := judgeOpsP "lsm" ops nkeys
 
 end HappyModel.C14
